@@ -210,8 +210,9 @@ pub fn judge_case(ctx: &mut Ctx, c: &FamCase) -> bool {
 
 fn sim_family(ctx: &mut Ctx, prog: &Program, label: String) {
     let out = sim::simulate(prog);
-    let cf = sim::cf_source(prog, &out);
-    let noncf: BTreeSet<u32> = cf.iter().filter(|(_, r)| r.is_some()).map(|(i, _)| *i).collect();
+    // only id coincidences (CF-1/CF-2) make a conflation expected; a parameter under a transparent
+    // wrapper (CF-3) is never a reason for one
+    let noncf: BTreeSet<u32> = sim::coincidences(prog, &out);
     ctx.count("noncf_members", noncf.len() as u64);
     let src = prog.render_source("TypeInfo");
     let c = FamCase { reg: &out.registry, noncf: &noncf, label: label.clone(), source: Some(src.clone()) };
@@ -288,8 +289,8 @@ pub fn run(ctx: &mut Ctx) {
         let merged = merge(&o1.registry, &o2.registry);
         let off = o1.registry.types.len() as u32;
         let mut noncf: BTreeSet<u32> =
-            sim::cf_source(&p1, &o1).iter().filter(|(_, r)| r.is_some()).map(|(i, _)| *i).collect();
-        noncf.extend(sim::cf_source(&p2, &o2).iter().filter(|(_, r)| r.is_some()).map(|(i, _)| *i + off));
+            sim::coincidences(&p1, &o1);
+        noncf.extend(sim::coincidences(&p2, &o2).iter().map(|i| *i + off));
         let label = format!("two-versions#{case}: {what}");
         let c = FamCase { reg: &merged, noncf: &noncf, label: label.clone(), source: Some(format!("// version 1\n{}\n// version 2\n{}", p1.render_source("TypeInfo"), p2.render_source("TypeInfo"))) };
         ctx.begin_case(&label);
